@@ -1,5 +1,6 @@
 import DVP.Lemmas.Loop
 import DVP.Lemmas.LoopEv
+import DVP.Lemmas.Run
 /-!
 # C03 — integration covers exactly the requested time span, in order
 
@@ -13,8 +14,9 @@ for the next step; or an exception), for every span, every sign pattern, every `
 sign and any size, and every sequence of calls.  The contract itself is a theorem for the
 integrator models where it can be (C04/C05) and is checked on every recorded return.
 
-Outside these theorems (checked on the implementation only): states stay paired with times
-(structural), stored values finite and of the initial dtype, and IEEE rounding ("a few rounding
+States: for the fixed-step explicit and splitting methods `DV.Run` carries the recorded states along
+(`fixed_step_samples_paired`); for the other integrators pairing is checked on the implementation only, as are:
+stored values finite and of the initial dtype, and IEEE rounding ("a few rounding
 units": the loop guard leaves at `|tf - t| < 32u`, the final step is `t + (tf - t)`).
 -/
 namespace DVP.C03
@@ -107,5 +109,32 @@ theorem quiet_event_call_is_plain_call (cfg : DV.LoopEv.CfgEv ℚ) (s : Sys ℚ)
     (DV.LoopEv.integrateEv cfg s evs kn nEvents target orc fuel).stopped = false :=
   DVP.LoopEv.quiet_call_is_plain_call cfg s evs kn nEvents target orc fuel
     (fun k t h => ⟨(hq k t h).1, fun sgn => DVP.LoopEv.handle_no_active sgn _ (hq k t h).2⟩) hne hcap
+
+
+/-- **Times and states stay paired one-to-one, the first state is the initial condition, and every
+recorded state is its predecessor advanced by one step of the method over the recorded interval** —
+for the whole-run model `DV.Run` (the time-grid machine with the states put back; fixed-step explicit
+Runge–Kutta and splitting methods, `inc` the increment of one step of the method, e.g. `DV.Run.rkInc`),
+for every right-hand side, every span and step of either sign, any sequence of `integrate(t)` calls and
+however many steps are taken. -/
+theorem fixed_step_samples_paired {V : Type} (cfg : Cfg ℚ) (add : V → V → V) (inc : ℚ → V → ℚ → V) (t0 tf dt : ℚ) (y0 : V)
+    (targets : List ℚ) (fuel : Nat) :
+    let r := DV.Run.calls cfg add inc fuel (DV.Run.construct t0 tf dt y0) targets
+    r.sys.ts.length = r.ys.length ∧ r.ys.getLast? = some y0 ∧ r.sys.ts.getLast? = some t0 ∧
+      DVP.Run.StepsOK add inc r.sys.ts r.ys := by
+  have h0 : DVP.Run.StepsOK add inc (DV.Run.construct t0 tf dt y0).sys.ts (DV.Run.construct t0 tf dt y0).ys := by
+    unfold DV.Run.construct DV.Loop.construct
+    split <;> simp [DVP.Run.StepsOK]
+  have h := DVP.Run.calls_steps cfg add inc fuel targets _ h0
+  refine ⟨h.1.length_eq, by rw [h.2]; rfl, ?_, h.1⟩
+  exact DVP.Run.calls_first_time cfg add inc fuel targets _ (by unfold DV.Run.construct DV.Loop.construct; split <;> simp)
+    |>.trans (by unfold DV.Run.construct DV.Loop.construct; split <;> rfl)
+
+/-- non-vacuity: Euler on `y' = y` backward from 1/2 with a step that does not divide the span; two calls (the
+second call finds its step longer than what is left and starts with half the distance) -/
+example : (DV.Run.calls (α := ℚ) (V := ℚ) { eps := 1/2^50, tolEps := 1/2^47, half := 1/2 } (· + ·)
+      (fun _ y h => y * h) 10 (DV.Run.construct (1/2) (-1/4) (3/10) 1) [0, -1/4]).sys.ts = [-1/4, -1/8, 0, 1/5, 1/2] := by decide +kernel
+example : (DV.Run.calls (α := ℚ) (V := ℚ) { eps := 1/2^50, tolEps := 1/2^47, half := 1/2 } (· + ·)
+      (fun _ y h => y * h) 10 (DV.Run.construct (1/2) (-1/4) (3/10) 1) [0, -1/4]).ys = [343/800, 49/100, 14/25, 7/10, 1] := by decide +kernel
 
 end DVP.C03
